@@ -42,9 +42,16 @@ Holds(o) ==
   \* equality of spaces
   /\ \A j \in DOMAIN o.eqs : o.eqs[j].eq = SameSpace(o.sp, o.eqs[j].sp) /\ o.eqs[j].eq_rev = o.eqs[j].eq
 
+\* C10 on the vector-space layer: accumulation never writes into memory it was not handed as the accumulator, and accumulating
+\* into 'nothing' yields memory nobody else holds
+Ownership(o) ==
+  /\ o.err = ""
+  /\ o.fresh /\ o.x_intact /\ o.y_intact
+  /\ o.mut_add3 = Add(Add(o.x, o.y), o.z) /\ o.mut_add_xy = Add(o.x, o.y)
+
 Init == i = 1
 Next == /\ i <= Len(Obs)
-        /\ (IF Holds(Obs[i]) THEN PrintT(<<"ACCEPT", Obs[i].id>>) ELSE TRUE)
+        /\ (IF (IF IOEnv.PROP = "C10" THEN Ownership(Obs[i]) ELSE Holds(Obs[i])) THEN PrintT(<<"ACCEPT", Obs[i].id>>) ELSE TRUE)
         /\ i' = i + 1
 Spec == Init /\ [][Next]_i
 =============================================================================
